@@ -321,6 +321,7 @@ pub fn property() -> Property {
         id: "C04",
         cases,
         clauses: &["drain-before-stop", "barrier-after-stop", "announce-after-stopped", "verdict-on-failure", "verdict-on-graceful"],
+        full_rerun_check: true,
         assumptions: &["a stop request counts as issued at the begin of the client operation that carries it, and as accepted when that operation (or Context::stop inside the handler) returned Ok"],
     }
 }
